@@ -22,6 +22,20 @@ def vec_add(a, b):
     return tuple(min(CAP, x + y) for x, y in zip(a, b))
 
 
+def _nested_refs(v, depth=0):
+    out = []
+    if isinstance(v, tuple) and depth < 4:
+        if v and v[0] == "closure":
+            for x in v[2]:
+                if isinstance(x, tuple) and x and x[0] == "ref" and isinstance(x[1], int):
+                    out.append(x[1])
+                out += _nested_refs(x, depth + 1)
+        elif v and v[0] in ("opt", "struct"):
+            for x in v[1:]:
+                out += _nested_refs(x, depth + 1)
+    return out
+
+
 class Liveness:
     def __init__(self, body):
         n = len(body.blocks)
@@ -258,6 +272,11 @@ class Engine:
                     return ("opt", inner if inner is not None else "?")
                 if not rv["ops"]:
                     return ("var", rv["adt"], rv["var"])
+                if rv["adt"] == "core::ops::range::Range" and len(rv["ops"]) == 2:
+                    a, b = self.eval_op(body, val, rv["ops"][0]), self.eval_op(body, val, rv["ops"][1])
+                    if isinstance(a, int) and isinstance(b, int):
+                        return ("range", a, b)
+                    return None
                 if rv["var"] != rv["adt"].split("::")[-1]:
                     return ("disc", rv["vi"])
                 if len(rv["ops"]) <= 8 and rv["var"] == rv["adt"].split("::")[-1]:
@@ -441,8 +460,11 @@ class Engine:
             elif k == "call":
                 if t["to"] is None:
                     continue
-                for (dvec, rv, killrefs) in self._call(body, bi, t, val, V):
+                for cres in self._call(body, bi, t, val, V):
+                    dvec, rv, killrefs = cres[0], cres[1], cres[2]
                     nv = dict(val)
+                    if len(cres) > 3:
+                        nv.update(cres[3])
                     if killrefs:
                         for a in t["args"]:
                             av = self.eval_op(body, val, a)
@@ -450,6 +472,9 @@ class Engine:
                             if isinstance(av, tuple) and av[0] == "ref" and p is not None and \
                                     body.locals[pl_local(p)].startswith("&mut"):
                                 nv.pop(av[1], None)
+                            # a closure (or aggregate) carrying references: whatever it captured may be written
+                            for r in _nested_refs(av):
+                                nv.pop(r, None)
                     if "dest" in t:
                         d = t["dest"]
                         if isinstance(d, int):
@@ -570,6 +595,14 @@ class Engine:
                 eq = (a == b)
                 return [(self.zero, int(eq if fn.endswith("eq") else not eq), False)]
             return [(self.zero, None, False)]
+        if fn == "core::iter::traits::collect::IntoIterator::into_iter" and argv and isinstance(argv[0], tuple) and argv[0][0] == "range":
+            return [(self.zero, argv[0], False)]
+        if fn == "core::iter::traits::iterator::Iterator::next" and argv and isinstance(argv[0], tuple) and argv[0][0] == "ref":
+            it = val.get(argv[0][1])
+            if isinstance(it, tuple) and it[0] == "range":
+                if it[1] < it[2]:
+                    return [(self.zero, ("opt", "?"), False, {argv[0][1]: ("range", it[1] + 1, it[2])})]
+                return [(self.zero, ("opt", None), False)]
         if fn == "core::clone::Clone::clone":
             v = deref(argv[0]) if argv else None
             if v is not None and self._comparable(v):
@@ -648,7 +681,12 @@ class Engine:
                 return None
             rv = d[3]
             if rv["k"] == "use" and "promoted" in rv["a"]:
-                return self.F.promoted_value(body, rv["a"]["promoted"])
+                pv = self.F.promoted_value(body, rv["a"]["promoted"])
+                if isinstance(pv, tuple) and pv[0] == "variant":
+                    return ("var", pv[1], pv[2])
+                if isinstance(pv, tuple) and pv[0] == "int":
+                    return pv[1]
+                return pv
             if rv["k"] in ("use",):
                 l = op_local(rv["a"])
             elif rv["k"] == "ref" and not isinstance(rv["pl"], int) and rv["pl"]["p"] == ["*"]:
